@@ -127,7 +127,7 @@ class Func:
         return getattr(self.node, "lineno", 0)
 
     def loc(self, node: Optional[ast.AST] = None) -> str:
-        ln = getattr(node, "lineno", None) if node is not None else self.lineno
+        ln = (getattr(node, "_src_lineno", None) or getattr(node, "lineno", None)) if node is not None else self.lineno
         return f"{self.module.rel}:{ln}"
 
     def body(self) -> list:
@@ -198,6 +198,12 @@ class Repo:
                 tree = ast.parse(src, filename=p)
             except SyntaxError as e:
                 raise AnchorMissing(f"{rel} does not parse: {e}")
+            # N-inline: private helpers that are newer than the rules are analysed as part of their callers (spverif/inline.py)
+            if not os.environ.get("SPVERIF_NO_INLINE"):
+                from .inline import normalise
+                n_inl = normalise(tree, rel)
+                if n_inl:
+                    self.inlined = getattr(self, "inlined", 0) + n_inl
             name = rel[:-3].replace(os.sep, ".")
             if name.endswith(".__init__"):
                 name = name[: -len(".__init__")]
